@@ -14,7 +14,7 @@
 
     Not modelled (inputs of the harness are always valid there): price-table
     signature/expiry, offset/length alignment, batch-size limits (1000), the
-    contract lock, the [Revisable] flag, currency overflow. *)
+    contract lock, currency overflow. *)
 From stdpp Require Import gmap.
 From Coq Require Import ZArith NArith List.
 Open Scope Z_scope.
@@ -36,7 +36,10 @@ Proof. solve_decision. Defined.
 Definition verify (k : N) (m : msg) (s : sig) : bool := bool_decide (s = Sig k m).
 
 (** ** State *)
-Record contract := Contract { c_rkey : N; c_revnum : N; c_renter : Z; c_host : Z }.
+(** [c_revisable] is [RevisionState.Revisable] as LockV2Contract reports it: the contract has
+    not been renewed and the host's tip is below its proof height (testutil/host.go:157-162).
+    It is an input of the environment; [Expire] below is the step that clears it. *)
+Record contract := Contract { c_rkey : N; c_revnum : N; c_renter : Z; c_host : Z; c_revisable : bool }.
 
 Record st := St {
   accounts : gmap N Z;
@@ -62,7 +65,8 @@ Inductive op :=
 | Detach (es : list entry)
 | ReadSec (a : N) (tok : token) (sector : N) (cost : Z)
 | WriteSec (a : N) (tok : token) (sector : N) (cost : Z)
-| VerifySec (a : N) (tok : token) (sector : N) (cost : Z).
+| VerifySec (a : N) (tok : token) (sector : N) (cost : Z)
+| Expire (c : N)   (* not an RPC: the chain reaches the proof height of [c], or [c] is renewed *).
 
 (** What a wrapping Contractor / Sectors records, in call order. *)
 Inductive event :=
@@ -83,7 +87,7 @@ Definition fail (s : st) : st * (list event * res) := (s, ([], RErr)).
 (** ** core: PayWithContract (core rhp/v4/rhp.go:844-860; AccountFunding usage, no collateral) *)
 Definition pay (c : contract) (amount : Z) : option contract :=
   if decide (c_renter c < amount) then None
-  else Some (Contract (c_rkey c) (N.succ (c_revnum c)) (c_renter c - amount) (c_host c + amount)).
+  else Some (Contract (c_rkey c) (N.succ (c_revnum c)) (c_renter c - amount) (c_host c + amount) (c_revisable c)).
 
 Definition rev_msg (cid : N) (c : contract) : msg :=
   MRevision cid (c_revnum c) (c_renter c) (c_host c).
@@ -176,7 +180,8 @@ Definition fund (s : st) (cid : N) (deps : list (N * Z)) (rsig : sig) : st * (li
   else match contracts s !! cid with
   | None => fail s                                                       (* lock: contract not found *)
   | Some existing =>
-    match pay existing (sum_amounts deps) with
+    if negb (c_revisable existing) then fail s                           (* lockContractForRevision: not revisable *)
+    else match pay existing (sum_amounts deps) with
     | None => fail s                                                     (* insufficient renter funds *)
     | Some rev =>
       if negb (verify (c_rkey existing) (rev_msg cid rev) rsig) then fail s  (* ErrInvalidSignature *)
@@ -211,7 +216,8 @@ Definition replenish (pool : bool) (s : st) (cid : N) (keys : list N) (target : 
   else match contracts s !! cid with
   | None => fail s
   | Some existing =>
-    if negb (verify (c_rkey existing) (MChallenge cid keys target (c_revnum existing)) chal) then fail s
+    if negb (c_revisable existing) then fail s                           (* lockContractForRevision: not revisable *)
+    else if negb (verify (c_rkey existing) (MChallenge cid keys target (c_revnum existing)) chal) then fail s
     else
       let m := if pool then pools s else accounts s in
       let deps := replenish_deposits target ∅ (map (λ k, (k, bal m k)) keys) in
@@ -277,6 +283,15 @@ Definition write (s : st) (a : N) (tok : token) (sector : N) (cost : Z) : st * (
             ([EvDebit a cost; EvStore sector], ROk []))
        end.
 
+(** the environment: contract [c] stops being revisable (proof height reached, or renewed) *)
+Definition kill (c : contract) : contract :=
+  Contract (c_rkey c) (c_revnum c) (c_renter c) (c_host c) false.
+Definition expire (s : st) (c : N) : st * (list event * res) :=
+  match contracts s !! c with
+  | None => (s, ([], ROk []))
+  | Some con => (St (accounts s) (pools s) (attached s) (<[c := kill con]> (contracts s)) (sectors s), ([], ROk []))
+  end.
+
 Definition step (s : st) (o : op) : st * (list event * res) :=
   match o with
   | Fund c deps rsig => fund s c deps rsig
@@ -286,6 +301,7 @@ Definition step (s : st) (o : op) : st * (list event * res) :=
   | ReadSec a tok sector cost => read_like s a tok sector cost
   | VerifySec a tok sector cost => read_like s a tok sector cost
   | WriteSec a tok sector cost => write s a tok sector cost
+  | Expire c => expire s c
   end.
 
 Fixpoint run (s : st) (ops : list op) : st * list (list event * res) :=
